@@ -29,7 +29,20 @@ CLAIM = dict(
          'C20_skeleton_exact_from_svd / C20_incomplete_recovers_svd replace the skeleton hypothesis by the usual thin-SVD '
          'contract (A = U diag(s) V, V V^T = I) plus "the singular values cut off by the rank rule vanish". '
          '"For almost all tensors" is not formalised; rounding is not part of any theorem. '
-         'Non-vacuity: C20_*_example instantiate every hypothesis on a 2x2x2 rank-2 target over Qc. '
+         'C20_tt_full_rank_implies_rank_hyp / C20_tt_rank_hyp_unfold / C20_incomplete_recovers_tt state the rank hypothesis '
+         'directly on the cores of the target ("full rank" = existence of a left / right inverse of the sampled interface '
+         'matrices; rank-implies-inverse linear algebra is not formalised). '
+         'Non-vacuity: C20_*_example instantiate every hypothesis on a 2x2x2 rank-2 target over Qc (true SVD), and '
+         'C20_*generic*_example on a 3x2x3 rank-2 target with generic cores, m = 3, cap 2, a non-trivial generator, the '
+         'skeleton reduction also at the inner mode and overdetermined least-squares systems. '
+         'Cross-cutting families (correspondence and search): argument forms (I int64/int32/uint8/F-ordered/non-contiguous, '
+         'values float64/non-contiguous/int64, offsets as ndarray/list/tuple/int32, e and r as Python / NumPy scalars / '
+         '0-d arrays / keywords / omitted defaults; sample_tt n as list/tuple/int arrays, r as int / NumPy int / float, '
+         'seeds None / 0 / int / Generator; get(_to_item=False) index as list/tuple/int32/uint8, F-ordered / '
+         'non-contiguous / integer cores) must give bit-for-bit the canonical answer; histories (same, read-only, '
+         'argument objects reused over three calls interleaved with get_many / get / sample_tt, same Generator reused: '
+         'same answer, arguments bit-identical, no shared memory); scales 2^-500..2^+1000 of the whole target and the '
+         'degenerate shapes (d = 2, rho = 1, m = rho, mode size = m, mode size 1, cap = rho, cap = 1). '
          'Validated numerically only: that the hypotheses hold for random continuous cores and that binary64 rounding '
          'keeps the error small (search: relative error <= 1e-6, observed <= 3e-11 on 3000 cases).',
     note='The model is tied to svd.py / sample.py on every run: exact (Z) stream for sample_tt and for every block the '
@@ -53,6 +66,13 @@ ASSUMPTIONS = ['r is integer-valued (int(r) = r); negative indices and ragged I 
                'exact recovery is a theorem about exact arithmetic under explicit algebraic hypotheses (no truncation '
                'loss in the skeleton steps; one-sided inverses of the sampled interface matrices); "almost all tensors" '
                'and the size of the rounding error are validated by the search, not proved',
+               'scales: below 1 the accuracy e is rescaled with the target or set to 0 (e is an ABSOLUTE accuracy: with the '
+               'default e = 1e-10 a target of magnitude below ~1e-9 is legitimately approximated by lower rank); targets of '
+               'magnitude below 2^-537 are outside the search (matrix_skeleton compares SQUARED singular values, the squares '
+               'underflow and everything is cut to rank 1 even for e = 0: reported to the lead, the model reproduces it in '
+               'the scaled_tiny stream); float32 values are accepted with float32 accuracy (1e-2 in the search)',
+               'forms that the docstrings do not promise (I or Y as lists, float mode sizes in sample_tt although the '
+               'docstring says int/float, seed as np.int64) raise; the search only checks they never silently differ',
                'search domain: continuous random cores (normal, uniform) of scale 1, d in 2..5, rho <= m <= min n, '
                'cap >= rho or default, int / None / Generator seeds; cap < rho only for shape and rank bound']
 TIME_LIMIT = {'quick': 900, 'thorough': 5400}
@@ -204,19 +224,28 @@ def gen_contract_violations(g):
     return bad
 
 
+def pow2_exp(A):
+    """exponent e with max|A| in [2^(e-1), 2^e) (0 for an empty or zero array): rescaling by 2^-e is exact"""
+    A = np.asarray(A, dtype=float)
+    mx = float(np.abs(A).max()) if A.size else 0.0
+    return int(np.frexp(mx)[1]) if mx > 0 and np.isfinite(mx) else 0
+
+
 def oracle_contract_violations(calls):
-    """The contracts assumed by the theorems, validated on every recorded call of the real routines."""
+    """The contracts assumed by the theorems, validated on every recorded call of the real routines
+    (after an exact power-of-two normalisation of the arguments, so that any scale can be checked)."""
     bad = []
     for c in calls:
         if c['kind'] == 'svd':
-            A = c['A']
+            ea = pow2_exp(c['A'])
+            A = np.ldexp(c['A'], -ea)
             U, s, V = c['out']
-            sc = max(1.0, float(np.abs(A).max()) if A.size else 1.0)
+            s = np.ldexp(np.asarray(s, dtype=float), -ea)
             p = min(A.shape)
             if U.shape != (A.shape[0], p) or s.shape != (p,) or V.shape != (p, A.shape[1]):
                 bad.append(f'svd shapes {U.shape} {s.shape} {V.shape} for {A.shape}')
                 continue
-            if np.abs(U @ np.diag(s) @ V - A).max() > 1e-11 * sc * max(A.shape):
+            if np.abs(U.astype(float) @ np.diag(s) @ V.astype(float) - A).max() > 1e-11 * max(A.shape):
                 bad.append('svd: U diag(s) V != A')
             if np.abs(V @ V.T - np.eye(p)).max() > 1e-11 or np.abs(U.T @ U - np.eye(p)).max() > 1e-11:
                 bad.append('svd: factors not orthonormal')
@@ -225,12 +254,15 @@ def oracle_contract_violations(calls):
             if c['kw'].get('full_matrices', True) is not False:
                 bad.append('svd called with full_matrices != False')
         else:
-            A, b, X = c['A'], c['b'], c['X']
-            if X.shape != (A.shape[1], b.shape[1]):
-                bad.append(f'lstsq shapes {X.shape} for {A.shape} {b.shape}')
+            X = c['X']
+            if X.shape != (c['A'].shape[1], c['b'].shape[1]):
+                bad.append(f"lstsq shapes {X.shape} for {c['A'].shape} {c['b'].shape}")
                 continue
-            sc = max(1.0, float(np.abs(A).max()) if A.size else 1.0) ** 2 * max(1.0, float(np.abs(b).max()) if b.size else 1.0)
-            if A.size and np.abs(A.T @ (A @ X - b)).max() > 1e-9 * sc * max(1.0, float(np.abs(X).max())):
+            ea, eb = pow2_exp(c['A']), pow2_exp(c['b'])
+            A, b = np.ldexp(np.asarray(c['A'], dtype=float), -ea), np.ldexp(np.asarray(c['b'], dtype=float), -eb)
+            Xn = np.ldexp(np.asarray(X, dtype=float), ea - eb)
+            if A.size and np.isfinite(Xn).all() and \
+                    np.abs(A.T @ (A @ Xn - b)).max() > 1e-9 * max(1.0, float(np.abs(Xn).max())):
                 bad.append('lstsq: normal equations not satisfied')
     return bad
 
@@ -270,28 +302,41 @@ def values(Y, I):
 def gen_case(rng, t, thorough):
     """one valid configuration: target of TT-rank rho, expected rank m >= rho, mode sizes >= m (mostly)"""
     fam = ['d2', 'rho1', 'm_eq_rho', 'n_eq_m', 'cap_eq_rho', 'cap_default', 'generic', 'generic', 'generic',
-           'cap_lt_rho', 'n_lt_m', 'noisy', 'int'][t % 13]
-    d = 2 if fam == 'd2' else rng.randint(2, 4)
-    rho = 1 if fam == 'rho1' else rng.randint(1, 3)
-    m = rho if fam == 'm_eq_rho' else rho + rng.randint(0, 2)
-    n = [m if fam == 'n_eq_m' else m + rng.randint(0, 2) for _ in range(d)]
+           'cap_lt_rho', 'n_lt_m', 'noisy', 'int', 'scaled', 'scaled_tiny', 'cap1', 'all_min', 'n1'][t % 18]
+    d = 2 if fam in ('d2', 'all_min') else rng.randint(2, 4)
+    rho = 1 if fam in ('rho1', 'cap1', 'all_min', 'n1') else rng.randint(1, 3)
+    m = rho if fam in ('m_eq_rho', 'all_min', 'n1') else rho + rng.randint(0, 2)
+    n = [m if fam in ('n_eq_m', 'all_min') else m + rng.randint(0, 2) for _ in range(d)]
     if fam == 'n_lt_m':
         n[rng.randrange(d)] = max(1, m - 1)
+    if fam == 'n1':
+        n[rng.randrange(d)] = 1
     cap = rng.choice([rho, rho + 1, m, m + 1, 1e12])
-    if fam == 'cap_eq_rho':
+    if fam in ('cap_eq_rho', 'all_min'):
         cap = rho
     if fam == 'cap_default':
         cap = 1e12
     if fam == 'cap_lt_rho':
         cap = max(1, rho - 1)
+    if fam == 'cap1':
+        cap = 1
     e = rng.choice([1e-10, 1e-10, 1e-8, 1e-12])
-    return dict(fam=fam, d=d, rho=rho, m=m, n=n, cap=cap, e=e, seed=rng.randrange(2 ** 31),
+    ex = 0
+    if fam == 'scaled':        # exact power-of-two rescaling of the whole target; e = 0 or rescaled with it
+        ex = rng.choice([-500, -300, -100, -40, 100, 300, 600, 1000])
+        e = rng.choice([0.0, 1e-10 * 2.0 ** ex]) if ex < 0 else rng.choice([0.0, 1e-10])
+    if fam == 'scaled_tiny':   # squares of the singular values underflow: model tie only (see ASSUMPTIONS)
+        ex = rng.choice([-600, -800, -1000])
+        e = rng.choice([0.0, 1e-10])
+    return dict(fam=fam, d=d, rho=rho, m=m, n=n, cap=cap, e=e, seed=rng.randrange(2 ** 31), ex=ex,
                 kind='int' if fam == 'int' else 'normal', noise=(1e-3 if fam == 'noisy' else 0.0))
 
 
 def make_inputs(tn, cfg):
     nprng = np.random.default_rng(cfg['seed'])
     Y = rand_tt(nprng, cfg['n'], cfg['rho'], cfg['kind'])
+    if cfg.get('ex'):
+        Y[0] = Y[0] * 2.0 ** cfg['ex']
     I, idx, idm = tn.sample_tt(cfg['n'], cfg['m'], seed=cfg['seed'])
     y = values(Y, I)
     if cfg.get('noise'):
@@ -303,10 +348,66 @@ def capz(cap):
     return C.zlit(int(cap))
 
 
-def run_impl(tn, I, y, idx, idm, e, cap):
+def noncontig(a):
+    """the same values in a non-contiguous view"""
+    a = np.asarray(a)
+    if a.ndim == 1:
+        return np.repeat(a, 2)[::2]
+    return np.repeat(a, 2, axis=1)[:, ::2]
+
+
+def arg_forms(rng, I, y, idx, idm, e, cap):
+    """the same call in another documented argument form (array dtype / order / contiguity, list / tuple / int32
+    offsets, NumPy scalars and 0-d arrays for e and r, keywords, omitted defaults); returns (args, kwargs, label)"""
+    lab = []
+    fI = rng.choice(['int64', 'int32', 'uint8', 'F', 'noncontig'])
+    if fI == 'uint8' and I.size and I.max() > 200:
+        fI = 'int32'
+    I2 = {'int64': lambda: I.astype(np.int64), 'int32': lambda: I.astype(np.int32), 'uint8': lambda: I.astype(np.uint8),
+          'F': lambda: np.asfortranarray(I), 'noncontig': lambda: noncontig(I)}[fI]()
+    lab.append('I:' + fI)
+    fy = rng.choice(['f64', 'noncontig', 'int64'])
+    if np.all(y == np.round(y)) and np.all(np.abs(y) < 2 ** 50):
+        fy = rng.choice(['int64', 'int64', 'noncontig'])       # integer values: an int64 array next to float64
+    elif fy == 'int64':
+        fy = 'noncontig'
+    y2 = {'f64': lambda: y.copy(), 'noncontig': lambda: noncontig(y), 'int64': lambda: y.astype(np.int64)}[fy]()
+    lab.append('Y:' + fy)
+    fx = rng.choice(['ndarray', 'list', 'tuple', 'int32'])
+    conv = {'ndarray': lambda a: np.asarray(a), 'list': lambda a: np.asarray(a).tolist(),
+            'tuple': lambda a: tuple(np.asarray(a).tolist()), 'int32': lambda a: np.asarray(a).astype(np.int32)}[fx]
+    idx2, idm2 = conv(idx), conv(idm)
+    lab.append('idx:' + fx)
+    fe = rng.choice(['float', 'np.float64', '0d'])
+    e2 = {'float': lambda: float(e), 'np.float64': lambda: np.float64(e), '0d': lambda: np.array(float(e))}[fe]()
+    lab.append('e:' + fe)
+    if cap == 1e12:
+        fr = rng.choice(['float', 'np.float64', 'int'])
+        r2 = {'float': lambda: 1e12, 'np.float64': lambda: np.float64(1e12), 'int': lambda: 10 ** 12}[fr]()
+    else:
+        fr = rng.choice(['int', 'float', 'np.int64', 'np.int32', 'np.float32', '0d'])
+        r2 = {'int': lambda: int(cap), 'float': lambda: float(cap), 'np.int64': lambda: np.int64(cap),
+              'np.int32': lambda: np.int32(cap), 'np.float32': lambda: np.float32(cap),
+              '0d': lambda: np.array(int(cap))}[fr]()
+    lab.append('r:' + fr)
+    style = rng.choice(['positional', 'keyword', 'defaults'])
+    if style == 'defaults' and not (cap == 1e12 and e == 1e-10):
+        style = 'keyword'
+    lab.append(style)
+    if style == 'positional':
+        return (I2, y2, idx2, idm2, e2, r2), {}, ' '.join(lab)
+    if style == 'keyword':
+        return (), dict(I=I2, Y=y2, idx=idx2, idx_many=idm2, e=e2, r=r2), ' '.join(lab)
+    return (I2, y2, idx2, idm2), {}, ' '.join(lab)
+
+
+def run_impl(tn, I, y, idx, idm, e, cap, form=None):
     with Recorder() as rec:
         try:
-            Z = tn.svd_incomplete(I, y, idx, idm, e, cap)
+            if form is not None:
+                Z = tn.svd_incomplete(*form[0], **form[1])
+            else:
+                Z = tn.svd_incomplete(I, y, idx, idm, e, cap)
             code = 0
         except Exception as ex:  # noqa
             Z, code = None, C.errclass(ex)
@@ -407,13 +508,20 @@ def tolerant_stream(R, name, terms, cmp_results, inputs, chunk, dist, comparison
 def corr_float(R, ctx, tn):
     """binary64 instance of the model with the recorded svd / lstsq results replayed by call number"""
     rng = ctx['rng']
-    N = 260 if ctx['thorough'] else 65
+    N = 288 if ctx['thorough'] else 72
     terms, cmps, inputs = [], [], []
-    dist = dict(family={}, d={}, rho={}, m={}, cap={}, impl_raised=0, svd_calls=0, lstsq_calls=0, contract_bad=[])
+    dist = dict(family={}, d={}, rho={}, m={}, cap={}, forms={}, impl_raised=0, svd_calls=0, lstsq_calls=0,
+                contract_bad=[])
     for t in range(N):
         cfg = gen_case(rng, t, ctx['thorough'])
         Y, I, y, idx, idm = make_inputs(tn, cfg)
-        code, Z, rec = run_impl(tn, I, y, idx, idm, cfg['e'], cfg['cap'])
+        form = None
+        if t % 2 == 1:      # every second case is called in another documented argument form; the model sees the values
+            form = arg_forms(rng, I, y, idx, idm, cfg['e'], cfg['cap'])
+            cfg['form'] = form[2]
+            for w in form[2].split():
+                dist['forms'][w] = dist['forms'].get(w, 0) + 1
+        code, Z, rec = run_impl(tn, I, y, idx, idm, cfg['e'], cfg['cap'], form)
         for k, v in (('family', cfg['fam']), ('d', cfg['d']), ('rho', cfg['rho']), ('m', cfg['m']),
                      ('cap', str(cfg['cap']))):
             dist[k][v] = dist[k].get(v, 0) + 1
@@ -423,14 +531,14 @@ def corr_float(R, ctx, tn):
         cb = oracle_contract_violations(rec.calls)
         if cb:
             dist['contract_bad'].append([cfg, cb[:2]])
-        if cfg['fam'] not in ('noisy', 'cap_lt_rho', 'n_lt_m', 'int') and code == 0:
+        if cfg['fam'] not in ('noisy', 'cap_lt_rho', 'n_lt_m', 'int', 'scaled_tiny') and code == 0:
             # hypothesis of the exactness theorem: the skeleton steps lose nothing (cap >= rho, e negligible)
             for c, G in zip([c for c in rec.calls if c['kind'] == 'svd'], [None] * 99):
                 s_ = c['out'][1]
                 sc = max(float(s_[0]), 1e-300) if len(s_) else 1.0
                 tail = s_[cfg['rho']:]
                 dist['skeleton_tail_max'] = max(dist.get('skeleton_tail_max', 0.0),
-                                                float(np.sqrt(np.sum(tail ** 2)) / sc) if len(tail) else 0.0)
+                                                float(np.sqrt(np.sum((tail / sc) ** 2))) if len(tail) else 0.0)
         terms.append(coq_term(I, y, idx, idm, cfg['e'], cfg['cap'], rec.calls))
         cmps.append(lambda v, code=code, Z=Z, rec=rec: compare_case(v, code, Z, rec))
         inputs.append(dict(fn='svd_incomplete', **cfg))
@@ -622,12 +730,290 @@ def _oracle0(tn, p):
     if not all(np.isfinite(G).all() for G in Z):
         return dict(what='non-finite entries in the result', input=p)
     if cap is None or cap >= rho:
-        F, G = dense(Y), dense(Z)
+        inv = 1.0 / p['scale'] if p.get('scale') else 1.0     # exact: the scale is a power of two
+        F, G = dense(Y) * inv, dense(Z) * inv
         err = float(np.linalg.norm(F - G) / max(np.linalg.norm(F), 1e-300))
         if err > PROP_TOL:
             return dict(what=f'recovered tensor differs from the rank-{rho} target: relative error {err:.3e}',
                         input=p, got=err, expected=f'<= {PROP_TOL}', samples=samples)
     return None
+
+
+
+# ----------------------------------------------------------------------------
+# search families: argument forms, call histories, scales and degenerate shapes
+# ----------------------------------------------------------------------------
+
+def check_layout(n, m, I, idx, idm):
+    """independent description of what sample_tt must return for shape n and expected rank m"""
+    I, idx, idm = np.asarray(I), np.asarray(idx), np.asarray(idm)
+    d = len(n)
+    if not np.issubdtype(I.dtype, np.integer):
+        return f'samples have dtype {I.dtype}'
+    if I.ndim != 2 or I.shape[1] != d or idx.shape != (d + 1,) or idm.shape != (d,) or idx[0] != 0:
+        return f'shapes {I.shape} {idx.shape} {idm.shape}'
+    if I.min() < 0 or (I >= np.asarray(n, dtype=int)[None, :]).any():
+        return 'index outside the tensor'
+    for k in range(d):
+        l1 = 1 if k == 0 else m
+        l2 = 1 if k == d - 1 else m
+        if idm[k] != l2 or idx[k + 1] - idx[k] != int(n[k]) * l1 * l2:
+            return f'block {k}: idx_many {idm[k]} length {idx[k + 1] - idx[k]}'
+        B = I[idx[k]:idx[k + 1]].reshape(int(n[k]), l1, l2, d)
+        if not (B[:, :, :, k] == np.arange(int(n[k]))[:, None, None]).all():
+            return f'block {k}: values of the mode not in order'
+        if not (B[:, :, :, :k] == B[:1, :, :1, :k]).all() or not (B[:, :, :, k + 1:] == B[:1, :1, :, k + 1:]).all():
+            return f'block {k}: not a product (value x prefixes x suffixes)'
+    return None
+
+
+def same_cores(Za, Zb):
+    return len(Za) == len(Zb) and all(np.asarray(a).shape == np.asarray(b).shape and
+                                      np.array_equal(np.asarray(a, dtype=float), np.asarray(b, dtype=float))
+                                      for a, b in zip(Za, Zb))
+
+
+def snapshot(*arrs):
+    return [(np.asarray(a).dtype.str, np.asarray(a).shape, np.asarray(a).tobytes()) for a in arrs]
+
+
+def small_cfg(rng):
+    d = rng.randint(2, 4)
+    rho = rng.randint(1, 3)
+    m = rho + rng.randint(0, 1)
+    n = [m + rng.randint(0, 2) for _ in range(d)]
+    cap = rng.choice([rho, m, m + 1, 1e12])
+    return dict(n=n, rho=rho, m=m, cap=cap, seed=rng.randrange(2 ** 31), kind=rng.choice(['normal', 'uniform']))
+
+
+def rel_err(Y, Z, inv=1.0):
+    F, G = dense(Y) * inv, dense(Z) * inv
+    return float(np.linalg.norm(F - G) / max(np.linalg.norm(F), 1e-300))
+
+
+def fam_forms(tn, fseed):
+    """(1) argument forms: every documented form gives bit-for-bit the answer of the canonical form;
+    undocumented forms raise or give the same answer"""
+    rng = C.Rng(fseed)
+    cfg = small_cfg(rng)
+    inp = dict(family='forms', fseed=fseed, cfg=cfg)
+    n, m, rho, cap, e = cfg['n'], cfg['m'], cfg['rho'], cfg['cap'], 1e-10
+    Y = rand_tt(np.random.default_rng(cfg['seed']), n, rho, cfg['kind'])
+    # ---- sample_tt
+    I, idx, idm = tn.sample_tt(n, m, seed=cfg['seed'])
+    I = np.asarray(I)
+    msg = check_layout(n, m, I, idx, idm)
+    if msg:
+        return dict(what='sample_tt: ' + msg, input=inp)
+    for lab, nn, mm in [('n tuple', tuple(n), m), ('n int64 array', np.array(n, dtype=np.int64), m),
+                        ('n int32 array', np.array(n, dtype=np.int32), m), ('r np.int64', n, np.int64(m)),
+                        ('r np.int32', n, np.int32(m)), ('r float', n, float(m)), ('r keyword', n, None)]:
+        try:
+            out = tn.sample_tt(nn, r=m, seed=cfg['seed']) if mm is None else tn.sample_tt(nn, mm, cfg['seed'])
+        except Exception as ex:  # noqa
+            return dict(what=f'sample_tt raised for the documented form "{lab}": {ex!r}'[:300], input=inp)
+        if not all(np.array_equal(a, b) for a, b in zip(out, (I, idx, idm))):
+            return dict(what=f'sample_tt: form "{lab}" gives other samples than the canonical form', input=inp)
+    for lab, sd in [('seed 0', 0), ('seed None', None), ('seed Generator', np.random.default_rng(cfg['seed'])),
+                    ('default r', 'default')]:
+        try:
+            out = tn.sample_tt(n) if sd == 'default' else tn.sample_tt(n, m, sd)
+        except Exception as ex:  # noqa
+            return dict(what=f'sample_tt raised for "{lab}": {ex!r}'[:300], input=inp)
+        msg = check_layout(n, 4 if sd == 'default' else m, *out)
+        if msg:
+            return dict(what=f'sample_tt ({lab}): {msg}', input=inp)
+    for lab, f in [('n float list (undocumented behaviour: may raise)', lambda: tn.sample_tt([float(x) for x in n], m, cfg['seed'])),
+                   ('seed np.int64 (may raise)', lambda: tn.sample_tt(n, m, np.int64(cfg['seed'])))]:
+        try:
+            out = f()
+        except Exception:  # noqa
+            continue
+        if not all(np.array_equal(a, b) for a, b in zip(out, (I, idx, idm))):
+            return dict(what=f'sample_tt: "{lab}" silently returns other samples', input=inp)
+    # ---- svd_incomplete
+    y = values(Y, I)
+    Zc = tn.svd_incomplete(I, y, idx, idm, e, cap)
+    if rel_err(Y, Zc) > PROP_TOL:
+        return dict(what='canonical call does not recover the target', input=inp)
+    for t in range(10):
+        a, kw, lab = arg_forms(rng, I, y, idx, idm, e, cap)
+        try:
+            Z = tn.svd_incomplete(*a, **kw)
+        except Exception as ex:  # noqa
+            return dict(what=f'svd_incomplete raised for the documented argument form [{lab}]: {ex!r}'[:300], input=inp)
+        if not same_cores(Z, Zc):
+            return dict(what=f'svd_incomplete: argument form [{lab}] changes the result', input=inp)
+    Yi = rand_tt(np.random.default_rng(cfg['seed']), n, rho, 'int')     # integer values: int64 array next to float64
+    yi = values(Yi, I)
+    try:
+        if not same_cores(tn.svd_incomplete(I, yi.astype(np.int64), idx, idm, e, cap),
+                          tn.svd_incomplete(I, yi, idx, idm, e, cap)):
+            return dict(what='svd_incomplete: integer-dtype values give another result than the same float values', input=inp)
+    except Exception as ex:  # noqa
+        return dict(what=f'svd_incomplete raised on integer-dtype values: {ex!r}'[:300], input=inp)
+    try:   # float32 values: the answer of float32 arithmetic (tolerance 1e-2), never a malformed tensor
+        Z32 = tn.svd_incomplete(I, y.astype(np.float32), idx, idm, e, cap)
+        if [G.shape[1] for G in Z32] != list(n) or not all(np.isfinite(G).all() for G in Z32) or rel_err(Y, Z32) > 1e-2:
+            return dict(what='svd_incomplete on float32 values: wrong tensor', input=inp, got=rel_err(Y, Z32))
+    except Exception as ex:  # noqa
+        return dict(what=f'svd_incomplete raised on float32 values: {ex!r}'[:300], input=inp)
+    e32 = np.float32(e)
+    Za, Zb = tn.svd_incomplete(I, y, idx, idm, e32, cap), tn.svd_incomplete(I, y, idx, idm, float(e32), cap)
+    if len(Za) != len(Zb) or any(a.shape != b.shape or not np.allclose(a, b, rtol=1e-9, atol=0) for a, b in zip(Za, Zb)):
+        return dict(what='svd_incomplete: e as np.float32 gives another result than the same value as float', input=inp)
+    for lab, f in [('I list', lambda: tn.svd_incomplete(I.tolist(), y, idx, idm, e, cap)),
+                   ('Y list', lambda: tn.svd_incomplete(I, y.tolist(), idx, idm, e, cap)),
+                   ('I float array', lambda: tn.svd_incomplete(I.astype(float), y, idx, idm, e, cap))]:
+        try:
+            Z = f()
+        except Exception:  # noqa  (undocumented form: may raise)
+            continue
+        if not same_cores(Z, Zc):
+            return dict(what=f'svd_incomplete: undocumented form "{lab}" silently returns another result', input=inp)
+    # ---- get(_to_item=False) on the cores built so far
+    for k in range(1, len(Zc)):
+        i0 = I[rng.randrange(len(I)), :k]
+        ref = np.asarray(tn.get(Zc[:k], np.array(i0, dtype=np.int64), _to_item=False))
+        if ref.shape != (1, Zc[k - 1].shape[2]):
+            return dict(what=f'get(_to_item=False) returns shape {ref.shape}', input=inp)
+        v = np.ones((1, 1))
+        for G, j in zip(Zc[:k], i0):
+            v = v @ G[:, int(j), :]
+        if not np.allclose(ref, v, rtol=1e-12, atol=0):
+            return dict(what='get(_to_item=False) is not the product of the slices', input=inp)
+        forms = [('list', i0.tolist(), Zc[:k]), ('tuple', tuple(i0.tolist()), Zc[:k]),
+                 ('int32', i0.astype(np.int32), Zc[:k]), ('uint8', i0.astype(np.uint8), Zc[:k]),
+                 ('F-ordered cores', i0, [np.asfortranarray(G) for G in Zc[:k]]),
+                 ('non-contiguous cores', i0, [np.repeat(G, 2, axis=2)[:, :, ::2] for G in Zc[:k]]),
+                 ('tuple of cores', i0, tuple(Zc[:k]))]
+        for lab, ii, cores in forms:
+            try:
+                out = np.asarray(tn.get(cores, ii, _to_item=False))
+            except Exception as ex:  # noqa
+                return dict(what=f'get(_to_item=False) raised for form "{lab}": {ex!r}'[:300], input=inp)
+            # another memory layout may change the order of summation inside BLAS: rounding-level agreement there
+            # (bit-for-bit agreement of the layouts is checked on dyadic cores below), bit-for-bit otherwise
+            ok = np.allclose(out, ref, rtol=1e-12, atol=0) if 'cores' in lab and 'tuple' not in lab else np.array_equal(out, ref)
+            if out.shape != ref.shape or not ok:
+                return dict(what=f'get(_to_item=False): form "{lab}" changes the result', input=inp)
+    Gi = [np.random.default_rng(cfg['seed'] + k).integers(-4, 5, size=G.shape) for k, G in enumerate(Zc)]
+    ii = I[0]
+    a = np.asarray(tn.get(Gi[:2], ii[:2], _to_item=False), dtype=float)
+    b = np.asarray(tn.get([G.astype(float) / 4 for G in Gi[:2]], ii[:2], _to_item=False)) * 16
+    if not np.array_equal(a, b):
+        return dict(what='get(_to_item=False): integer-dtype cores give another result than the same dyadic float cores', input=inp)
+    Gd = [G.astype(float) / 4 for G in Gi[:2]]
+    for lab, cores in [('F-ordered', [np.asfortranarray(G) for G in Gd]),
+                       ('non-contiguous', [np.repeat(G, 2, axis=2)[:, :, ::2] for G in Gd])]:
+        if not np.array_equal(np.asarray(tn.get(cores, ii[:2], _to_item=False)) * 16, b):
+            return dict(what=f'get(_to_item=False): {lab} dyadic cores give another result', input=inp)
+    return None
+
+
+def fam_history(tn, fseed):
+    """(2) histories: the same argument objects reused across calls (read-only, so any write raises), interleaved with
+    other routines; every call recovers the target, equals the first one bit for bit, arguments unchanged"""
+    rng = C.Rng(fseed)
+    cfg = small_cfg(rng)
+    inp = dict(family='history', fseed=fseed, cfg=cfg)
+    n, m, rho, cap = cfg['n'], cfg['m'], cfg['rho'], cfg['cap']
+    Y = rand_tt(np.random.default_rng(cfg['seed']), n, rho, cfg['kind'])
+    g = np.random.default_rng(cfg['seed'])
+    first = None
+    for rnd in range(2):          # the same Generator object is reused: a new, equally valid sample set every time
+        I, idx, idm = tn.sample_tt(n, m, g)
+        msg = check_layout(n, m, I, idx, idm)
+        if msg:
+            return dict(what=f'sample_tt (call {rnd} on the same Generator): {msg}', input=inp)
+        I, idx, idm = np.array(I), np.array(idx), np.array(idm)
+        y = values(Y, I)
+        nl = list(n)
+        before = snapshot(I, y, idx, idm)
+        ro = rng.random() < 0.5
+        for a in (I, y, idx, idm):
+            a.flags.writeable = not ro
+        Zs = []
+        try:
+            for k in range(3):
+                Zs.append(tn.svd_incomplete(I, y, idx, idm, 1e-10, cap))
+                if k == 0:
+                    tn.get_many(Zs[0], I)
+                    tn.get(Zs[0][:1], I[0, :1], _to_item=False)
+                if k == 1:
+                    tn.sample_tt(nl, m, 0)
+                    tn.svd_incomplete(I, y * 2, idx, idm)       # another call with other values in between
+        except Exception as ex:  # noqa
+            return dict(what=f'repeated calls on the same{" read-only" if ro else ""} arguments raised: {ex!r}'[:300], input=inp)
+        if snapshot(I, y, idx, idm) != before or nl != list(n):
+            return dict(what='svd_incomplete / sample_tt modified an argument', input=inp)
+        for k, Z in enumerate(Zs):
+            if not same_cores(Z, Zs[0]):
+                return dict(what=f'call {k} on the same arguments returns another result than call 0', input=inp)
+            if cap >= rho and rel_err(Y, Z) > PROP_TOL:
+                return dict(what=f'call {k} on the same arguments does not recover the target', input=inp, got=rel_err(Y, Z))
+            if any(np.shares_memory(G, a) for G in Z for a in (I, y)):
+                return dict(what='a returned core shares memory with an argument', input=inp)
+        if any(np.shares_memory(a, b) for a in Zs[0] for b in Zs[1]):
+            return dict(what='cores of two calls share memory', input=inp)
+    I1 = tn.sample_tt(n, m, cfg['seed'])
+    I2 = tn.sample_tt(n, m, cfg['seed'])
+    if not all(np.array_equal(a, b) for a, b in zip(I1, I2)):
+        return dict(what='sample_tt with the same integer seed is not reproducible', input=inp)
+    return None
+
+
+SCALE_EXPS = [-500, -300, -100, -40, 100, 300, 600, 1000]
+
+
+def fam_scale(tn, fseed):
+    """(3) scales and degenerate shapes: exact power-of-two rescalings of the whole target (e = 0 or rescaled with the
+    target below 1, default above), thresholds hit exactly (cap = rho, cap = 1, m = rho, mode size = m, mode size 1, d = 2)"""
+    rng = C.Rng(fseed)
+    for t in range(10):
+        kind = ['scale', 'scale', 'scale', 'exact_thresholds', 'cap1', 'all_one', 'mode1', 'd2_min', 'scale_one_core',
+                'scale'][t]
+        d = rng.randint(2, 4)
+        rho = rng.randint(1, 3)
+        m = rho + rng.randint(0, 1)
+        n = [m + rng.randint(0, 1) for _ in range(d)]
+        cap = rng.choice([rho, m, None])
+        p = dict(seed=rng.randrange(2 ** 31), kind=rng.choice(['normal', 'uniform']))
+        if kind in ('scale', 'scale_one_core'):
+            ex = rng.choice(SCALE_EXPS)
+            p['scale'] = 2.0 ** ex
+            if ex < 0:
+                p['e'] = rng.choice([0.0, 1e-10 * 2.0 ** ex])
+            elif rng.random() < 0.5:
+                p['e'] = rng.choice([0.0, 1e-10])
+        if kind == 'exact_thresholds':
+            m = rho
+            n = [m] * d
+            cap = rho
+        if kind == 'cap1':
+            rho, cap = 1, 1
+            m = rng.randint(1, 2)
+            n = [m + rng.randint(0, 1) for _ in range(d)]
+        if kind == 'all_one':
+            rho, m, cap, n = 1, 1, 1, [1] * d
+        if kind == 'mode1':
+            rho, m = 1, 1
+            n = [rng.randint(1, 3) for _ in range(d)]
+            n[rng.randrange(d)] = 1
+            cap = rng.choice([1, None, 1e12])
+        if kind == 'd2_min':
+            d, m = 2, rho
+            n = [rho, rho]
+            cap = rho
+        p.update(n=n, rho=rho, m=m, cap=cap, sseed=rng.choice([0, p['seed'], f'gen:{rng.randrange(2 ** 31)}']))
+        f = _oracle(tn, p)
+        if f:
+            f['input'] = dict(family='scale', fseed=fseed, sub=kind, **f['input'])
+            return f
+    return None
+
+
+FAMILIES = dict(forms=fam_forms, history=fam_history, scale=fam_scale)
 
 
 def search_cases(rng, deep):
@@ -671,9 +1057,12 @@ def search(R, ctx, deep, hints):
     for h in hints:
         inp = h.get('input', {})
         if isinstance(inp, dict) and 'rho' in inp and 'n' in inp and 'malformed' not in inp and \
-                not str(inp.get('fam', '')).startswith(('noisy', 'cap_lt', 'n_lt')):
-            cand.append(dict(n=inp['n'], rho=inp['rho'], m=inp['m'], cap=inp['cap'], seed=inp['seed'],
-                             kind=inp.get('kind', 'normal'), e=inp.get('e', 1e-10)))
+                not str(inp.get('fam', '')).startswith(('noisy', 'cap_lt', 'n_lt', 'scaled_tiny', 'int')):
+            c = dict(n=inp['n'], rho=inp['rho'], m=inp['m'], cap=inp['cap'], seed=inp['seed'],
+                     kind=inp.get('kind', 'normal'), e=inp.get('e', 1e-10))
+            if inp.get('ex'):
+                c['scale'] = 2.0 ** inp['ex']
+            cand.append(c)
     cand += search_cases(rng, deep)
     for p in cand:
         n_eval += 1
@@ -685,6 +1074,21 @@ def search(R, ctx, deep, hints):
     R.search.append(dict(name='recovery oracle: dense export of svd_incomplete(sample_tt samples of a rank-rho tensor) '
                               'versus the tensor; shape, chain of ranks, cap',
                          evaluations=n_eval, failures=len(fails), deep=deep))
+    for fam, fn in FAMILIES.items():
+        cnt, ff = 0, 0
+        for _ in range({'forms': 25, 'history': 25, 'scale': 30}[fam] * (5 if deep else 1)):
+            if len(fails) >= 5:
+                break
+            fseed = rng.randrange(2 ** 31)
+            cnt += 1
+            try:
+                f = fn(tn, fseed)
+            except Exception as ex:  # noqa
+                f = dict(what=f'{fam} family raised: {ex!r}'[:300], input=dict(family=fam, fseed=fseed))
+            if f:
+                ff += 1
+                fails.append(f)
+        R.search.append(dict(name=f'family: {fn.__doc__.strip().splitlines()[0]}', evaluations=cnt, failures=ff, deep=deep))
     return fails
 
 
@@ -693,6 +1097,13 @@ def replay(data):
     p = data['payload']
     print(data['what'])
     inp = p.get('input') if isinstance(p, dict) else None
+    if isinstance(inp, dict) and inp.get('family') in FAMILIES and 'rho' not in inp:
+        try:
+            f = FAMILIES[inp['family']](tn, inp['fseed'])
+        except Exception as ex:  # noqa
+            f = dict(what=repr(ex))
+        print('replayed:', f)
+        return 1 if f else 0
     if isinstance(inp, dict) and 'rho' in inp:
         f = _oracle(tn, inp)
         print('replayed:', f)
